@@ -137,12 +137,27 @@ func Exec(t *testing.T, w World, prop, tier string, tape *simsync.Tape, trace bo
 			k.TraceOn = trace
 			run = &Run{K: k, T: tape, Prop: prop, Tier: tier, Counters: counters, States: states}
 			defer func() {
+				// A panic on the controller goroutine must not leave the
+				// bubble: testing's runner would turn it into a process
+				// exit. Harness errors and anything else become a harness
+				// error of this run (exit 2 in the driver).
 				r := recover()
-				k.Teardown()
-				k.Close()
 				if r != nil {
-					panic(r)
+					if he, ok := r.(simsync.HarnessError); ok {
+						res.Harness = he.Msg
+					} else {
+						res.Harness = fmt.Sprintf("panic on the controller goroutine: %v", r)
+					}
 				}
+				func() {
+					defer func() {
+						if r2 := recover(); r2 != nil && res.Harness == "" {
+							res.Harness = fmt.Sprintf("panic during teardown: %v", r2)
+						}
+					}()
+					k.Teardown()
+				}()
+				k.Close()
 			}()
 			w(run)
 		})
@@ -228,6 +243,13 @@ func Main(t *testing.T, worlds map[string]World) {
 		minimise(t, w, prop, tier, out)
 	case "hashes":
 		hashes(t, w, prop, tier, out)
+	case "one":
+		// Debugging aid: execute exactly one run index with tracing.
+		base := int64(envInt("VERIF_SEED", 1))
+		i := envInt("VERIF_RUN_INDEX", 0)
+		res, _, _ := Exec(t, w, prop, tier, simsync.NewTape(seedFor(base, prop, i)), true, map[string]int{}, map[string]struct{}{})
+		res.Index = i
+		writeJSON(out, res)
 	default:
 		explore(t, w, prop, tier, out)
 	}
